@@ -951,7 +951,12 @@ def written_data(e, effs):
         if d.kind != 'WRITE_DATA' or d.path is None or d.args is None or len(d.args) < 2:
             continue
         r = strip(d.path)
-        if r[0] == 'call' and r[1] in CREATE and r[2] and e.path is not None and canon(r[2][0]) == canon(e.path) \
+        made = None
+        if r[0] == 'call' and r[1] in CREATE and r[2]:
+            made = r[2][0]
+        elif r[0] == 'call' and r[1] == 'std::fs::OpenOptions::open' and len(r[2]) == 2 and open_mode(r[2][0]) in ('create', 'create_new'):
+            made = r[2][1]
+        if made is not None and e.path is not None and canon(made) == canon(e.path) \
                 and (len(r) < 4 or r[3] is None or r[3] == (e.call.fn.path, e.call.bb)) \
                 and (d.forall is None) == (e.forall is None) and (d.forall is None or canon(d.forall) == canon(e.forall)):
             found.append(d)
@@ -1272,6 +1277,7 @@ def name_spine(v):
 
 # ---- interprocedural "always and checked" (R4 writes that were moved into helpers) ------------------------
 TRUNCATING = ('std::fs::write', 'std::fs::File::create')
+from .lib.effects import effect_name, open_mode   # noqa: E402
 
 
 def _result_of(v, g, c):
